@@ -107,6 +107,22 @@ pub fn exec(toks: &[&str]) -> String {
             }
             None => "bad-op".into(),
         },
+        ["limit", la, l4, l6, a, v4, v6] => {
+            // RequestResourceLimit::apply_to: `*` = this resource type is not limited; blocks are 128-bit (IPv4 in the upper 32 bits)
+            use rpki::ca::provisioning::RequestResourceLimit;
+            use rpki::repository::resources::ResourceSet;
+            let v4_of = |s: &str| ip_chain(s).map(Ipv4Blocks::from);
+            let v6_of = |s: &str| ip_chain(s).map(Ipv6Blocks::from);
+            let (Some(a), Some(v4), Some(v6)) = (as_chain(a), v4_of(v4), v6_of(v6)) else { return "bad-op".into() };
+            let mut l = RequestResourceLimit::new();
+            if *la != "*" { let Some(x) = as_chain(la) else { return "bad-op".into() }; l.with_asn(x); }
+            if *l4 != "*" { let Some(x) = v4_of(l4) else { return "bad-op".into() }; l.with_ipv4(x); }
+            if *l6 != "*" { let Some(x) = v6_of(l6) else { return "bad-op".into() }; l.with_ipv6(x); }
+            match l.apply_to(&ResourceSet::new(a, v4, v6)) {
+                Ok(r) => format!("ok {};{};{}", show_as(r.asn()), show_ip(r.ipv4()), show_ip(r.ipv6())),
+                Err(_) => "err".into(),
+            }
+        }
         ["ip-fmt", fam, a] => match ip_chain(a) {
             // the text form (`Display`) of the canonical set
             Some(c) => format!("{} {}", show_ip(&c), hex(if *fam == "4" { c.as_v4().to_string() } else { c.as_v6().to_string() }.as_bytes())),
@@ -324,6 +340,33 @@ pub fn generate(ctx: &mut Ctx) {
             _ => {}
         }
         ctx.case(&format!("as-der {}", hex(&d)));
+    }
+    // resource-limit application: every combination of given / not given limits over small sets, then random ones
+    {
+        let some_as: Vec<&Vec<(u128, u128)>> = sets_as.iter().take(if thorough { 12 } else { 6 }).collect();
+        for la in some_as.iter().map(|x| show_blocks(x)).chain(["*".to_string()]) {
+            for a in &some_as {
+                for (l4, v4, l6, v6) in [("*", "-", "*", "-"), ("-", "-", "*", "-"), ("*", "-", "-", "-"),
+                    ("13292279957849158729038070602803445760-13292280036077321243302408196347396095", "13292279957849158729038070602803445760-14621507953634074601941877663083790335", "*", "0-5"),
+                    ("*", "13292279957849158729038070602803445760-14621507953634074601941877663083790335", "3-9", "0-5")] {
+                    ctx.case(&format!("limit {} {} {} {} {} {}", la, l4, l6, show_blocks(a), v4, v6));
+                }
+            }
+        }
+        for _ in 0..(if thorough { 20_000 } else { 2_000 }) {
+            let pick_set = |rng: &mut Rng, v: &Vec<Vec<(u128, u128)>>| show_blocks(&v[rng.below(v.len() as u64) as usize]);
+            let v4set = |rng: &mut Rng| { let k = rng.below(3); let v: Vec<(u128, u128)> = (0..k).map(|_| { let a = (rng.below(64) as u128) << 122; let b = a | ((1u128 << (96 + rng.below(26))) - 1); (a, b) }).collect(); show_blocks(&v) };
+            let lim = |rng: &mut Rng, s: String| if rng.chance(2, 5) { "*".to_string() } else { s };
+            let (a, v4, v6) = (pick_set(&mut rng, &sets_as), v4set(&mut rng), pick_set(&mut rng, &sets_ip));
+            // limits: often a subset of what the set holds (the set itself, or another small set)
+            let ca = if rng.bool() { a.clone() } else { pick_set(&mut rng, &sets_as) };
+            let c4 = if rng.bool() { v4.clone() } else { v4set(&mut rng) };
+            let c6 = if rng.bool() { v6.clone() } else { pick_set(&mut rng, &sets_ip) };
+            let la = lim(&mut rng, ca);
+            let l4 = lim(&mut rng, c4);
+            let l6 = lim(&mut rng, c6);
+            ctx.case(&format!("limit {} {} {} {} {} {}", la, l4, l6, a, v4, v6));
+        }
     }
     // text forms
     for a in &sets_ip { ctx.case(&format!("ip-fmt 6 {}", show_blocks(a))); }
